@@ -158,6 +158,29 @@ theorem C09.acgc_minDefect (d tmp : Vec) (hl : tmp.length = d.length) (hne : dot
     have := quad_min (dot tmp tmp) (dot d tmp) w hpos
     linarith
 
+/-- The guarded step length of `stepProl` (fix of finding F-C09-1): a non-zero denominator gives the quotient of
+    `C09.acgc_minEnergy` / `C09.acgc_minDefect`; a vanishing denominator gives `ω = 1`, i.e. the update is the plain
+    coarse grid correction `sol + 1·cor`, for either adaptive mode and whatever the numerator is. -/
+theorem C09.acgc_guard (num den : Rat) (cor sol : Vec) :
+    (den ≠ 0 → cgcOmega num den = num / den) ∧
+    (den = 0 → cgcOmega num den = 1 ∧ axpy (cgcOmega num den) cor sol = axpy 1 cor sol) := by
+  constructor
+  · exact cgcOmega_of_ne num den
+  · intro h
+    subst h
+    simp [cgcOmega_zero]
+
+/-- A vanishing correction `cor = 0` (zero defect, or an inner visit whose restricted defect vanishes) makes both
+    denominators `⟨F(A cor), cor⟩` and `⟨F(A cor), F(A cor)⟩` zero, and the update leaves the solution unchanged for
+    every step length: the application stays finite and exact. -/
+theorem C09.acgc_zero_correction (L : Level) (sol : Vec) (w : Rat) :
+    dot (filt L.fidx (mulVec L.A (List.replicate sol.length 0))) (List.replicate sol.length 0) = 0 ∧
+    dot (filt L.fidx (mulVec L.A (List.replicate sol.length 0)))
+        (filt L.fidx (mulVec L.A (List.replicate sol.length 0))) = 0 ∧
+    axpy w (List.replicate sol.length 0) sol = sol := by
+  refine ⟨dot_zero_right _ _, ?_, axpy_zero w sol⟩
+  rw [mulVec_zero, filt_zero, dot_zero_right]
+
 /-- The defect shortcut used before post-smoothing with adaptive correction: `F(b − A(x + ω c)) = F(b − A x) − ω F(A c)`,
     i.e. the two branches of `stepProl` compute the same new defect when `defe` is the current defect. -/
 theorem C09.def_shortcut (L : Level) (rhs sol c : Vec) (w : Rat) (hc : c.length = sol.length)
@@ -172,4 +195,5 @@ theorem C09.def_shortcut (L : Level) (rhs sol c : Vec) (w : Rat) (hc : c.length 
 example : (cycleIter .W 3 0 (fun _ => 7)).1.map peaksOf = some [2, 1, 2, 0, 2, 1, 2] := by decide
 example : (cycleIter .F 4 0 (fun _ => 0)).1.map peaksOf = some [3, 2, 1] := by decide
 example : (cycleIter .F 4 0 (fun _ => 0)).1.map countCoarse = some 4 := by decide
+example : cgcOmega 3 0 = 1 ∧ cgcOmega 3 2 = 3 / 2 := by constructor <;> norm_num [cgcOmega]
 example : 0 < dot [2, 1] [1, 1] := by norm_num [dot_cons, dot_nil_left]
